@@ -5,7 +5,7 @@
 From Coq Require Import List NArith ZArith Bool.
 From GoPdf.Base Require Import Bytes Res.
 From GoPdf.Gen Require Import Gen_Perm.
-From GoPdf.C09 Require Import StdSec StdSecProofs.
+From GoPdf.C09 Require Import StdSec StdSecProofs AESCorrect.
 From GoPdf.C10 Require Import WriterModel WriterProofs.
 Import ListNotations.
 
@@ -44,7 +44,36 @@ Theorem exempt_only : forall (k : okind) (plain_meta : bool),
 Proof. exact exempt_only_l. Qed.
 Print Assumptions exempt_only.
 
+(* exemption is decided by object identity: an object that IS NOT the catalog's /Metadata stream, the
+   cross-reference stream, an object stream or a member of one has its strings and its stream data encrypted,
+   whatever its dictionary looks like (/Type /Metadata /Subtype /XML, /Type /XRef, /Type /ObjStm,
+   /Type /EmbeddedFile, an /Encrypt-like or signature-like dictionary, /ID-like strings) *)
+Theorem lookalike_encrypted : forall (di : docinfo) (r : oref) (sh : shape) (plain_meta : bool),
+  ordinary di r = true -> encrypts (kind_of di r sh) plain_meta = (true, true).
+Proof. exact lookalike_encrypted_l. Qed.
+Print Assumptions lookalike_encrypted.
+
+(* read (write o) = o for every object of every document, look-alikes included: the writer decides by the
+   object's identity while seeing shape [o_shape o], the reader by the same identity while seeing ANY shape [sh];
+   strings and stream data come back as written, under every cipher, key, reference, IVs and write chunking
+   ([obj_ok]: in the AES case 16-byte IVs, bytes < 256 and a 128-bit key length resp. a 16/32-byte file key) *)
+Theorem obj_rt : forall (c : cfg) (ivs : list bytes) (siv : bytes) (o : dobj) (sh : shape),
+  obj_ok c ivs siv o ->
+  read_obj c (o_ref o) sh (write_obj c ivs siv o) = Ok (o_strings o, option_map (@concat _) (o_stream o)).
+Proof. exact obj_rt_l. Qed.
+Print Assumptions obj_rt.
+
 (* hypotheses are satisfiable *)
+Example ex_ordinary :
+  let di := {| di_meta := Some (5, 0)%N; di_xref := Some (9, 0)%N; di_containers := [(7, 0)%N]; di_members := [(3, 0)%N] |} in
+  ordinary di (6, 0)%N = true /\ kind_of di (6, 0)%N ShMetadataXML = KDirect /\ kind_of di (5, 0)%N ShPlain = KMetadata.
+Proof. repeat split. Qed.
+Example ex_obj_ok :
+  let c := {| c_aes := false; c_R := 3; c_kb := 16; c_fkey := [1; 2; 3]%N; c_plain_meta := true;
+              c_doc := {| di_meta := None; di_xref := None; di_containers := []; di_members := [] |} |} in
+  obj_ok c [[]] [] {| o_ref := (6, 0)%N; o_shape := ShMetadataXML; o_strings := [[65; 66]%N]; o_stream := Some [[1]%N; [2]%N] |}.
+Proof. split; [constructor; [intros H; discriminate H|constructor]|intros H; discriminate H]. Qed.
+
 Example ex_key_input : (70000 < 2^24)%N /\ (3 <= 65535)%N /\ key_input 70000 3 = [112; 17; 1; 3; 0]%N.
 Proof. split; [reflexivity|]. split; [discriminate|reflexivity]. Qed.
 Example ex_dict : dict_ok 8 12 true = true /\ dict_ok 3 12 false = true.
